@@ -177,7 +177,22 @@ def table_strategy():
                 'keepOverBounds': draw(st.booleans()),
                 'joinedFeatureTags': draw(st.sampled_from(['chrom', 'chrom', 'chrom,DA', bin_tag, 'chrom,%s' % bin_tag])),
                 'doNotDivideFragments': draw(st.booleans())}
-        return {'contigs': contigs, 'records': recs, 'opts': opts}
+        second = None
+        if draw(st.integers(0, 3)) == 0:
+            # a second BAM counted in the same call: same contig names, other lengths, sometimes an extra contig
+            c2 = [[n, max(12, L + draw(st.sampled_from([-b, 0, b, 2 * b, -(L // 2)])))] for n, L in contigs]
+            if draw(st.booleans()):
+                c2.append(['spike', 3 * b + 7])
+            r2 = []
+            for j in range(draw(st.integers(1, 10))):
+                tid = draw(st.integers(0, len(c2) - 1))
+                clen = c2[tid][1]
+                v = draw(st.sampled_from([0, clen - 1, draw(st.integers(0, clen - 1)), (clen // b) * b]))
+                v = min(max(0, v), clen - 1)
+                r2.append({'name': 's%d' % j, 'flag': 0, 'tid': tid, 'pos': draw(st.integers(0, clen - 10)), 'mapq': 60, 'cigar': '5M',
+                           'tags': {'SM': 'cell%d' % draw(st.integers(0, 2)), bin_tag: v}, 'mtid': -1, 'mpos': -1})
+            second = {'contigs': c2, 'records': r2}
+        return {'contigs': contigs, 'records': recs, 'opts': opts, 'second': second}
     return case()
 
 
@@ -190,16 +205,27 @@ def eval_table(case):
     s = o['sliding'] or b
     out = Outcome()
     path = os.path.join(scratch_dir(), 'c10_%d.bam' % os.getpid())
+    path2 = os.path.join(scratch_dir(), 'c10_%d_second.bam' % os.getpid())
     write_bam(path, contigs, recs)
+    second = case.get('second')
     try:
         exp = ct.recount(contigs, recs, o)
+        args = ct.make_args(path, o)
+        if second:
+            # every file is counted against its own contig lengths
+            c2 = [tuple(c) for c in second['contigs']]
+            write_bam(path2, c2, second['records'])
+            args.alignmentfiles = [path, path2]
+            for k, v in ct.recount(c2, second['records'], o).items():
+                exp[k] = exp.get(k, 0) + v
+            out.label('two BAM files with different headers')
         with contextlib.redirect_stdout(io.StringIO()):
-            df = create_count_table(ct.make_args(path, o), return_df=True)
+            df = create_count_table(args, return_df=True)
         got = ct.df_to_dict(df)
     except Exception as e:
-        return out.bad('table:exception:%s' % type(e).__name__, 'create_count_table raised %r for opts %r' % (e, o))
+        return out.bad('table:exception:%s%s' % (type(e).__name__, ':two-files' if second else ''), 'create_count_table raised %r for opts %r' % (e, o))
     finally:
-        for p in (path, path + '.bai'):
+        for p in (path, path + '.bai', path2, path2 + '.bai'):
             if os.path.exists(p):
                 os.remove(p)
     bt = o['binTag']
@@ -223,7 +249,7 @@ def eval_table(case):
             end = key[1][-1]
             vals = {r['tags'].get(bt) for r in recs}
             sub = 'extra-window-ending-at-x' if end in vals else 'extra'
-        out.bad('table:%s' % sub, 'opts %r: cell %r got %r expected %r (%d differing cells; total got %.3f expected %.3f)' % (
+        out.bad('table:%s%s' % (sub, ':two-files' if second else ''), 'opts %r: cell %r got %r expected %r (%d differing cells; total got %.3f expected %.3f)' % (
             o, key, g, e, len(diffs), sum(got.values()), sum(exp.values())))
     return out
 
